@@ -67,8 +67,38 @@ theorem mode_impl : RoGen.Ctors.modeImpl = [
     ("Safe", "NewMutexWithLock", "BackpressureBlock"), ("Unsafe", "NewMutexWithoutLock", "BackpressureBlock"),
     ("EventuallySafe", "NewMutexWithLock", "BackpressureDrop")] := by decide
 
+/-- Outside the operator files (whose constructors are the Catalogue's `ctor` column, `table_ok`) the core builds observables and
+    subscribers only here: the public constructors delegating to each other, `SubscribeWithContext` wrapping the destination in a
+    subscriber of the observable's mode, the connectable observables through the default (safe) constructors, and every subject
+    wrapping its subscriber with `NewSubscriber` (safe). A new site — a subject handing out an unsafe view of itself, a helper
+    that builds an unsafe observable — is a new row. -/
+theorem ctor_sites : RoGen.Ctors.ctorSites = [
+    ("observable.go", "NewObservable", "NewSafeObservable"),
+    ("observable.go", "NewSafeObservable", "NewObservableWithConcurrencyMode"),
+    ("observable.go", "NewUnsafeObservable", "NewObservableWithConcurrencyMode"),
+    ("observable.go", "NewEventuallySafeObservable", "NewObservableWithConcurrencyMode"),
+    ("observable.go", "NewObservableWithContext", "NewSafeObservableWithContext"),
+    ("observable.go", "NewSafeObservableWithContext", "NewObservableWithConcurrencyMode"),
+    ("observable.go", "NewUnsafeObservableWithContext", "NewObservableWithConcurrencyMode"),
+    ("observable.go", "NewEventuallySafeObservableWithContext", "NewObservableWithConcurrencyMode"),
+    ("observable.go", "observableImpl.SubscribeWithContext", "NewSubscriberWithConcurrencyMode"),
+    ("observable.go", "NewConnectableObservable", "NewObservable"),
+    ("observable.go", "NewConnectableObservableWithContext", "NewObservableWithContext"),
+    ("observable.go", "NewConnectableObservableWithConfig", "NewObservable"),
+    ("observable.go", "NewConnectableObservableWithConfigAndContext", "NewObservableWithContext"),
+    ("subject_async.go", "asyncSubjectImpl.SubscribeWithContext", "NewSubscriber"),
+    ("subject_behavior.go", "behaviorSubjectImpl.SubscribeWithContext", "NewSubscriber"),
+    ("subject_publish.go", "publishSubjectImpl.SubscribeWithContext", "NewSubscriber"),
+    ("subject_replay.go", "replaySubjectImpl.SubscribeWithContext", "NewSubscriber"),
+    ("subject_unicast.go", "unicastSubjectImpl.SubscribeWithContext", "NewSubscriber"),
+    ("subscriber.go", "NewSubscriber", "NewSafeSubscriber"),
+    ("subscriber.go", "NewSafeSubscriber", "NewSubscriberWithConcurrencyMode"),
+    ("subscriber.go", "NewUnsafeSubscriber", "NewSubscriberWithConcurrencyMode"),
+    ("subscriber.go", "NewEventuallySafeSubscriber", "NewSubscriberWithConcurrencyMode")] := by decide
+
 end Ro.C02b
 
+#print axioms Ro.C02b.ctor_sites
 #print axioms Ro.C02b.table_ok
 #print axioms Ro.C02b.ctor_modes
 #print axioms Ro.C02b.mode_impl
